@@ -18,7 +18,7 @@ TOOL = 3
 mon = sys.monitoring
 
 
-def run_schedule(funcs, code_objects, schedule, breakpoints=None, step_timeout=10.0):
+def run_schedule(funcs, code_objects, schedule, breakpoints=None, step_timeout=3.0, deadline=90.0):
     n = len(funcs)
     ident_to_idx: dict[int, int] = {}
     turn = [threading.Semaphore(0) for _ in range(n)]
@@ -66,9 +66,19 @@ def run_schedule(funcs, code_objects, schedule, breakpoints=None, step_timeout=1
         # every thread first reaches its first stop (or finishes without entering the code)
         for i in range(n):
             arrived[i].wait(step_timeout)
+        import time
+        t_end = time.monotonic() + deadline
         for tid in schedule:
+            if time.monotonic() > t_end:
+                trace.append((tid, "deadline"))
+                break
             if tid >= n or done[tid].is_set():
                 trace.append((tid, "skip"))
+                continue
+            if not arrived[tid].is_set():
+                # still inside its previous step: blocked on a lock another (stopped) thread holds, or in a
+                # long C call. Granting it again would only wait for the time-out; let the others move on.
+                trace.append((tid, "busy"))
                 continue
             arrived[tid].clear()
             turn[tid].release()
